@@ -51,6 +51,8 @@ func checkC04(c *Ctx) {
 	r.Rule("R04g", "encoders do not swallow a child's marshalling error", 2)
 	r.Rule("R04h", "scenario messages: the keys the emitted encoder writes are the keys the documented mapping (and the decoder) use", 4)
 	crossScenarioKeys(c, "R04h", "go")
+	r.Rule("R04i", "codec collectors visit nested declarations unconditionally (a nested annotated message must get its codec)", 14)
+	collectorRecursion(c, "R04i")
 
 	type siteAgg struct {
 		pos  string
